@@ -159,6 +159,8 @@ def build(s, cache):
                               constraints=tuple(build(x, cache) for x in s[3]))
     if k == "callable":
         params = [SigParameter(f"@{i}", ParameterKind.POSITIONAL_ONLY, annotation=build(x, cache)) for i, x in enumerate(s[1])]
+        for name, x in (s[3] if len(s) > 3 else []):  # keyword-only parameters, in declaration order
+            params.append(SigParameter(name, ParameterKind.KEYWORD_ONLY, annotation=build(x, cache)))
         return V.CallableValue(Signature.make(params, build(s[2], cache)))
     if k == "union":
         u = V.MultiValuedValue([build(x, cache) for x in s[1]])
@@ -208,7 +210,7 @@ def gen_val(rng, depth, allow_union=True):
     if r < 0.64:
         return ["dictinc", [[gen_val(rng, d), gen_val(rng, d), rng.random() < 0.2, rng.random() < 0.8] for _ in range(rng.randrange(3))]]
     if r < 0.71:
-        names = sorted(rng.sample(["a", "b", "c"], rng.randrange(1, 3)))
+        names = rng.sample(["a", "b", "c"], rng.randrange(1, 4))  # declaration order is random
         extra = gen_val(rng, d) if rng.random() < 0.25 else None
         return ["td", [[n, gen_val(rng, d), rng.random() < 0.7, rng.random() < 0.2] for n in names], extra, rng.random() < 0.3]
     if r < 0.76:
@@ -222,7 +224,8 @@ def gen_val(rng, depth, allow_union=True):
             inner = gen_simple(rng)
         return ["annot", inner, sorted(set(rng.randrange(4) for _ in range(rng.randrange(1, 3))))]
     if r < 0.86:
-        return ["callable", [gen_val(rng, d) for _ in range(rng.randrange(3))], gen_val(rng, d)]
+        kw = [[n, gen_val(rng, d)] for n in rng.sample(["k", "l", "m"], rng.choice([0, 0, 1, 2, 3]))]
+        return ["callable", [gen_val(rng, d) for _ in range(rng.randrange(3))], gen_val(rng, d), kw]
     if not allow_union:
         return gen_simple(rng)
     members = [gen_val(rng, d) for _ in range(rng.randrange(0, 4))]
@@ -231,33 +234,100 @@ def gen_val(rng, depth, allow_union=True):
     return [rng.choice(["union", "unite", "unite"]) if members else "unite", members]
 
 
-def variant(s, rng, fresh):
-    """a value that is meant to compare equal to s: union members shuffled,
-    unhashable literal objects re-created, equal numbers of another type inside tuples."""
+def variant(s, rng, fresh, force=False):
+    """a value built differently from s that is meant to compare equal to it (or, where
+    equality is positional, to differ from it only by construction order).  Every
+    constructor whose construction order is not part of equality is permuted:
+      union members, TypedDict keys (dict), keyword-only parameters (Signature.parameters is a dict);
+    unhashable literal objects are re-created; equal numbers of another type are swapped in;
+    and, as near misses whose equality IS positional, dict-incomplete entries and Annotated
+    metadata are permuted too.  With force=True every applicable permutation is applied."""
+    p = (lambda q: True) if force else (lambda q: rng.random() < q)
     if not isinstance(s, list):
         return s
     if s in (["int", 1], ["bool", True], ["float", 1.0]) and rng.random() < 0.2:
         return rng.choice([["int", 1], ["bool", True], ["float", 1.0], ["ie", "x"], ["complex", 1.0, 0.0]])
     if s in (["int", 0], ["bool", False], ["float", 0.0]) and rng.random() < 0.2:
         return rng.choice([["int", 0], ["bool", False], ["float", 0.0]])
-    if s and s[0] in ("union", "unite"):
-        ms = [variant(x, rng, fresh) for x in s[1]]
-        if rng.random() < 0.6:
-            rng.shuffle(ms)
-        return [s[0], ms]
-    if s and s[0] in ("list", "set", "dict", "tuple") and len(s) == 3 and isinstance(s[1], int):
+    rec = lambda x: variant(x, rng, fresh, force)
+
+    def perm(l):
+        l = list(l)
+        if len(l) > 1:
+            if force:
+                l = l[1:] + l[:1]  # a definite change of order
+            else:
+                rng.shuffle(l)
+        return l
+
+    k = s[0] if s else None
+    if k in ("union", "unite"):
+        ms = [rec(x) for x in s[1]]
+        return [k, perm(ms) if p(0.6) else ms]
+    if k == "td" and len(s) == 4:
+        entries = [[n, rec(x), req, ro] for n, x, req, ro in s[1]]
+        return ["td", perm(entries) if p(0.7) else entries, None if s[2] is None else rec(s[2]), s[3]]
+    if k == "callable" and isinstance(s[1], list) and len(s) >= 3:
+        kw = [[n, rec(x)] for n, x in (s[3] if len(s) > 3 else [])]
+        return ["callable", [rec(x) for x in s[1]], rec(s[2]), perm(kw) if p(0.7) else kw]
+    if k == "dictinc":
+        entries = [[rec(a), rec(b), m, r] for a, b, m, r in s[1]]
+        return ["dictinc", perm(entries) if (not force and p(0.25)) else entries]
+    if k == "annot" and len(s) == 3:
+        md = list(s[2])
+        return ["annot", rec(s[1]), perm(md) if (not force and p(0.25)) else md]
+    if k in ("list", "set", "dict", "tuple") and len(s) == 3 and isinstance(s[1], int):
         lab = s[1]
-        if rng.random() < 0.5:
+        if p(0.5) and not force:
             fresh[0] += 1
             lab = 5000 + fresh[0]
-        return [s[0], lab, [variant(x, rng, fresh) for x in s[2]]]
-    return [variant(x, rng, fresh) for x in s]
+        return [k, lab, [rec(x) for x in s[2]]]
+    return [rec(x) for x in s]
+
+
+def has_permutable(s):
+    """does the spec contain a constructor whose construction order is not part of equality?"""
+    if not isinstance(s, list):
+        return False
+    if s and s[0] == "td" and len(s) == 4 and len(s[1]) > 1:
+        return True
+    if s and s[0] == "callable" and len(s) > 3 and len(s[3]) > 1:
+        return True
+    if s and s[0] in ("union", "unite") and len(s[1]) > 1:
+        return True
+    return any(has_permutable(x) for x in s)
+
+
+def gen_permutable(rng):
+    """a value whose outermost (or one-level nested) constructor has an order-insensitive field"""
+    r = rng.random()
+    if r < 0.4:
+        names = rng.sample(["a", "b", "c"], rng.randrange(2, 4))
+        core = ["td", [[n, gen_val(rng, 1), rng.random() < 0.7, rng.random() < 0.2] for n in names],
+                gen_val(rng, 1) if rng.random() < 0.2 else None, rng.random() < 0.3]
+    elif r < 0.7:
+        kw = [[n, gen_val(rng, 1)] for n in rng.sample(["k", "l", "m"], rng.randrange(2, 4))]
+        core = ["callable", [gen_val(rng, 1) for _ in range(rng.randrange(2))], gen_val(rng, 1), kw]
+    else:
+        core = ["unite", [gen_val(rng, 1) for _ in range(rng.randrange(2, 4))]]
+    w = rng.random()
+    if w < 0.5:
+        return core
+    if w < 0.65:
+        return ["seq", "tuple", [[False, core], [False, gen_val(rng, 0)]]]
+    if w < 0.8:
+        return ["generic", "list", [core]]
+    if w < 0.9:
+        return ["dictinc", [[["known", ["str", "k"]], core, False, True]]]
+    return ["unite", [core, gen_val(rng, 1)]]
 
 
 def gen_case(rng, fresh):
-    a = gen_val(rng, 3)
+    a = gen_permutable(rng) if rng.random() < 0.15 else gen_val(rng, 3)
     r = rng.random()
-    if r < 0.35:
+    if r < 0.15 and has_permutable(a):
+        b = variant(a, rng, fresh, force=True)  # every order-insensitive constructor permuted, nothing else changed
+    elif r < 0.40:
         b = variant(a, rng, fresh)
     elif r < 0.5 and a[0] in ("union", "unite") and a[1]:
         b = rng.choice(a[1])
